@@ -69,6 +69,7 @@ std::uint64_t mix64(std::uint64_t a, std::uint64_t b) {
 namespace detail {
 
 Kernel K;
+void heartbeat_tick();
 
 Proc& proc(int pid) { return *K.procs.at(static_cast<std::size_t>(pid)); }
 Proc& cur_proc() { return proc(K.cur ? K.cur->pid : 0); }
@@ -189,6 +190,7 @@ static void dispatch() {
             K.stats.step_limit = true;
             abort_run("step limit exceeded (livelock?)");
         }
+        heartbeat_tick();
         reap_zombies();
         Fiber* cand[256];
         int n = 0;
@@ -384,6 +386,9 @@ using namespace detail;
 
 // ------------------------------------------------------------------ public API
 void fail_run(const std::string& why) { abort_run("driver: " + why); }
+static std::function<void()> g_heartbeat;
+void set_heartbeat(std::function<void()> fn) { g_heartbeat = std::move(fn); }
+namespace detail { void heartbeat_tick() { if ((K.stats.steps & 0x3fff) == 0 && g_heartbeat) g_heartbeat(); } }
 bool in_sim() { return sim(); }
 Knobs& knobs() { return K.knobs; }
 Rng& rng() { return K.rng; }
